@@ -105,9 +105,9 @@ def base_tr():
 _REUSE = {}
 
 
-def ev(keys, **cells):
+def ev(keys, fresh=False, **cells):
     tr = base_tr()
-    if 'H' not in cells and cells and sum(map(ord, repr(sorted(cells.items(), key=str)))) % 2:
+    if not fresh and 'H' not in cells and cells and sum(map(ord, repr(sorted(cells.items(), key=str)))) % 2:
         # every second point goes through one long-lived executor and through the very Cell objects of the calls before: their
         # values are changed in place and handed over again (what an application that recalculates in a loop does)
         if 'ex' not in _REUSE:
@@ -171,7 +171,11 @@ def run_point(case):
         return fails, 4
     if fn in ('EDATE', 'EOMONTH'):
         s = wbk.dec(case['start'])
-        outs = ev(['EDATE', 'EOMONTH', 'YEAR', 'MONTH', 'DAY', 'EDATE2', 'EOMONTH2', 'DAY2'], D=s, E=case['n'])
+        if case.get('blank'):
+            # the cell that holds the number of months is blank (never written, not set): a blank cell counts as 0
+            outs = ev(['EDATE', 'EOMONTH', 'YEAR', 'MONTH', 'DAY', 'EDATE2', 'EOMONTH2', 'DAY2'], fresh=True, D=s)
+        else:
+            outs = ev(['EDATE', 'EOMONTH', 'YEAR', 'MONTH', 'DAY', 'EDATE2', 'EOMONTH2', 'DAY2'], D=s, E=case['n'])
         for k, e in (('EDATE', o_edate(s, case['n'])), ('EOMONTH', o_eomonth(s, case['n'])), ('YEAR', s.year),
                      ('MONTH', s.month), ('DAY', s.day), ('EDATE2', o_edate(s, case['n'])), ('EOMONTH2', o_eomonth(s, case['n'])), ('DAY2', s.day)):
             f = mismatch(case, e, outs[k], k)
@@ -363,6 +367,7 @@ def points(tier):
                 if d <= last:
                     for n in range(-60, 61):
                         yield {'fn': 'EDATE', 'start': enc(DT(y, m, d)), 'n': n}
+                    yield {'fn': 'EDATE', 'start': enc(DT(y, m, d)), 'n': 0, 'blank': True}
     # the first representable years: 1 January 1900 / 1901 plus any month and day offset
     for y in (1900, 1901):
         for m in range(-30, 41):
